@@ -188,3 +188,25 @@ def pick_applicable_call(ctx, W, S, stream, tries=12, want_consistent=True):
         except interp.Undefined:
             ctx.probes["undefined_skipped"] += 1
     return None
+
+
+class FixtureWorld:
+    """a shipped (domain, problem) of the repository's test data with its reference reading; same interface as World"""
+
+    def __init__(self, fx):
+        self.fx = fx
+        self.D = fx["D"]
+        self.P = dict(fx["P"], goal=[])
+        self.objs = {**fx["P"]["objects"], **fx["D"]["constants"]}
+        self.dom_text = fx["dom_text"]
+        self.dom_text_plain = fx["name"]
+        self.feat = {}
+
+    def problem_text(self, S=None, order=None):
+        if S is None:
+            return self.fx["prob_text"]
+        P = dict(self.P, facts=set(S[0]), fluents=dict(S[1]))
+        return G.render_problem(self.D, P, order)
+
+    def action(self, name):
+        return self.D["actions"][name]
